@@ -65,6 +65,15 @@ def gen_request_spec(rng):
         o["metadata"] = True
     if o.get("add-iam-methods"):
         o.pop("add-iam-methods")
+    # the less travelled plugin options (each changes which templates / branches render)
+    if rng.random() < 0.2:
+        o["lazy-import"] = True
+    if rng.random() < 0.15:
+        o["warehouse-package-name"] = "acme-" + spec["package"].split(".")[-2] + "-client"
+    if rng.random() < 0.1:
+        o["proto-plus-deps"] = "google.cloud.location+google.iam.v1" if rng.random() < 0.5 else "google.type"
+    if "rest" in o.get("transport", "") and rng.random() < 0.4:
+        o["rest-numeric-enums"] = True
     if rng.random() < 0.3:
         # a handwritten sample config (the `samples=` plugin option) for one plain unary RPC
         cands = [(fs, s, m) for fs, s, m in grammar.all_methods(spec)
